@@ -230,6 +230,14 @@ def _directed(ctx, rep):
         ([{"f": 1.0, "g": 0.1}], "g", "in", [0.1]),                              # float32 narrowing of IN literals
         ([{"f": 1.0, "g": 0.1}], "g", "==", 0.1),
         ([{"f": 2.0, "g": NAN}, {"f": 2.0, "g": 0.5}], "g", "!=", 0.5),
+        # a 32-bit float column STORES the nearest float32 (0.1 -> 0.10000000149…, 0.7 -> 0.69999998807…): bounds must describe what is
+        # stored, not what was handed in
+        ([{"g": 0.1}], "g", ">", 0.1),
+        ([{"g": 0.7}], "g", "<", 0.7),
+        ([{"g": 0.1}, {"g": 0.05}], "g", ">=", 0.10000000149011612),
+        ([{"g": 0.7}, {"g": 0.9}], "g", "<=", 0.699999988079071),
+        ([{"g": 16777217.0}], "g", "==", 16777216.0),
+        ([{"g": 0.1}], "g", "between", (0.1000000001, 0.2)),
     ]
     try:
         for i, (rows, col, op, val) in enumerate(cases):
